@@ -35,6 +35,15 @@ def instances(tier):
             specs.append({"vars": {"v0": [0, 1], "v1": [0, 1], "v2": [0, 1]}, "cons": [{"name": "c0", "scope": ["v0", "v1"], "table": B[2]}, {"name": "c1", "scope": ["v1", "v2"], "table": B[0]}, {"name": "c2", "scope": ["v0", "v2"], "table": B[5]}], "mode": mode})
             specs.append({"vars": {"v0": [0, 1, 2]}, "cons": [{"name": "c0", "scope": ["v0"], "table": [2, 0, 1]}], "mode": mode})
     jobs = []
+    # a deeper pseudo-tree: root a (most neighbours), child b with two children c (back edge to a) and d: the children of a
+    # non-root node have different separators; one agent per variable and everything on two agents
+    B3 = [B[2], B[0], [[1, 0], [0, 5]]]
+    edges = [("a", "b"), ("b", "c"), ("a", "c"), ("b", "d"), ("a", "e"), ("a", "f")]
+    for mode in ("min", "max"):
+        deep = {"vars": {v: [0, 1] for v in "abcdef"}, "cons": [{"name": f"c{i}", "scope": list(e), "table": B3[i % 3]} for i, e in enumerate(edges)], "mode": mode}
+        jobs.append({"spec": deep, "agents": [f"a{i}" for i in range(6)], "mapping": {f"a{i}": [v] for i, v in enumerate("abcdef")}, "algo": "dpop", "timeout": TIMEOUT})
+        if not q or mode == "min":
+            jobs.append({"spec": deep, "agents": ["a0", "a1"], "mapping": {"a0": ["a", "c", "e"], "a1": ["b", "d", "f"]}, "algo": "dpop", "timeout": TIMEOUT})
     for spec in specs:
         comps = sorted(spec["vars"])
         agent_sets = [["a0", "a1"]] if (q or len(comps) < 3) else [["a0", "a1"], ["a0", "a1", "a2"]]
